@@ -131,7 +131,7 @@ pub fn case_strategy(deep: bool) -> BoxedStrategy<Case> {
             }
             prefixes.sort_by(|x, y| x.bools().cmp(&y.bools()));
             prefixes.dedup();
-            Case { bits, aes, ctx, key_seed: key_seed | 2, nonce_seed, input, param: AggParamSpec { level, prefixes }, mode }
+            Case { bits, aes, ctx, key_seed: key_seed | 2, nonce_seed, input, param: AggParamSpec { level, prefixes, heads: vec![] }, mode }
         })
         .boxed()
 }
